@@ -15,13 +15,13 @@ EXTENDS Integers, Sequences, FiniteSets, TLC, Json
 
 CONSTANTS MaxInst, MaxOps, Emit
 
-Types == {"int", "string", "array", "U"}
-Kinds == Types \cup {"W"}                 \* W: an unrelated class, accepted by nobody
+Types == {"int", "string", "array", "U", "W"}     \* two user classes: instantiations that differ only by class name
+Kinds == Types \cup {"X"}                          \* X: an unrelated class, accepted by nobody
 \* generic classes: member -> type parameter position
 Members == [Box |-> [v |-> 1, id |-> 1], Pair |-> [k |-> 1, v |-> 2, setv |-> 2]]
 IsParam == [Box |-> [v |-> FALSE, id |-> TRUE], Pair |-> [k |-> FALSE, v |-> FALSE, setv |-> TRUE]]
 ArgChoices == [Box |-> {<<t>> : t \in Types},
-               Pair |-> {<<a, b>> : a \in {"int", "string"}, b \in {"string", "array", "U"}}]
+               Pair |-> {<<a, b>> : a \in {"int", "string"}, b \in {"string", "array", "U", "W"}}]
 Classes == {"Box", "Pair"}
 
 VARIABLES insts,   \* sequence of [cls, args]
